@@ -83,6 +83,11 @@ def cx_to_ir(n):
                 cur[1].append(c)
         out = []
         for idx, (label, stmts) in enumerate(cases):
+            # `case k: { ...; break; }` -- a braced case body is the same statement list
+            while len(stmts) == 1 and stmts[0].get("kind") == "CompoundStmt":
+                stmts = cxfe.kids(stmts[0])
+            if len(stmts) == 2 and stmts[0].get("kind") == "CompoundStmt" and stmts[1].get("kind") == "BreakStmt":
+                stmts = cxfe.kids(stmts[0]) + [stmts[1]]
             # a case body must end in break / return (no fall-through) or be the last one
             items = [cx_to_ir(s) for s in stmts]
             if items and items[-1].k == "break":
